@@ -5,8 +5,11 @@ import (
 	"image"
 	"image/color"
 	"math"
+	"regexp"
 	"strconv"
 	"strings"
+
+	"github.com/reactivego/ivg/generate"
 
 	"github.com/reactivego/ivg"
 	"github.com/reactivego/ivg/render"
@@ -381,9 +384,670 @@ func monitorGeometry(line string, rect image.Rectangle, cs []Call) (fails []Fail
 	return
 }
 
-func monitorArcs(line string, rect image.Rectangle, cs []Call) []Failure        { return nil }
-func monitorGradient(line string, rect image.Rectangle, smp []image.Point, cs []Call) []Failure {
-	return nil
+// ---------- arcs (C06) ----------
+
+// svgArcCentre is the SVG implementation-note conversion from endpoint to centre parameterisation,
+// written independently in float64 (F.6.5/F.6.6): returns centre, (scaled) radii, theta1, deltaTheta.
+func svgArcCentre(x1, y1, x2, y2, rx, ry, phi float64, largeArc, sweep bool) (cx, cy, Rx, Ry, th1, dth float64) {
+	rx, ry = math.Abs(rx), math.Abs(ry)
+	c, s := math.Cos(phi), math.Sin(phi)
+	dx, dy := (x1-x2)/2, (y1-y2)/2
+	x1p, y1p := c*dx+s*dy, -s*dx+c*dy
+	lam := x1p*x1p/(rx*rx) + y1p*y1p/(ry*ry)
+	if lam > 1 {
+		k := math.Sqrt(lam)
+		rx, ry = rx*k, ry*k
+	}
+	num := rx*rx*ry*ry - rx*rx*y1p*y1p - ry*ry*x1p*x1p
+	den := rx*rx*y1p*y1p + ry*ry*x1p*x1p
+	co := 0.0
+	if num > 0 && den > 0 {
+		co = math.Sqrt(num / den)
+	}
+	if largeArc == sweep {
+		co = -co
+	}
+	cxp, cyp := co*rx*y1p/ry, -co*ry*x1p/rx
+	cx, cy = c*cxp-s*cyp+(x1+x2)/2, s*cxp+c*cyp+(y1+y2)/2
+	ang := func(ux, uy, vx, vy float64) float64 {
+		a := math.Atan2(ux*vy-uy*vx, ux*vx+uy*vy)
+		return a
+	}
+	th1 = ang(1, 0, (x1p-cxp)/rx, (y1p-cyp)/ry)
+	dth = ang((x1p-cxp)/rx, (y1p-cyp)/ry, (-x1p-cxp)/rx, (-y1p-cyp)/ry)
+	if sweep && dth < 0 {
+		dth += 2 * math.Pi
+	} else if !sweep && dth > 0 {
+		dth -= 2 * math.Pi
+	}
+	return cx, cy, rx, ry, th1, dth
 }
-func monitorC19(line string, ops []GenOp, h GenOp) []Failure           { return nil }
-func monitorPathData(line string, ops []GenOp, obs string) []Failure { return nil }
+
+// monitorArcs: C06 — at most four cubics from the pen to the mapped endpoint through points of the
+// requested ellipse, sweeping as the flags say; zero radius = a straight line to the mapped endpoint.
+func monitorArcs(line string, rect image.Rectangle, cs []Call) (fails []Failure) {
+	rec := &RecRaster{}
+	var z render.Renderer
+	z.SetRasterizer(rec, rect)
+	defer func() {
+		if p := recover(); p != nil {
+			fails = append(fails, Failure{"C06.no-panic", line, fmt.Sprint(p)})
+		}
+	}()
+	var vb ivg.ViewBox
+	W, H := float64(rect.Dx()), float64(rect.Dy())
+	for i, c := range cs {
+		if !c.IsDest() {
+			continue
+		}
+		if c.Name == "reset" {
+			vb = c.VB
+		}
+		px, py := rec.Pen()
+		before := len(rec.Log)
+		c.Apply(&z)
+		if c.Name != "A" && c.Name != "a" {
+			continue
+		}
+		delta := rec.Log[before:]
+		sx, sy := W/(float64(vb.MaxX)-float64(vb.MinX)), H/(float64(vb.MaxY)-float64(vb.MinY))
+		unT := func(x, y float64) (float64, float64) { return x/sx + float64(vb.MinX), y/sy + float64(vb.MinY) }
+		T := func(x, y float64) (float64, float64) { return (x - float64(vb.MinX)) * sx, (y - float64(vb.MinY)) * sy }
+		x1, y1 := unT(float64(px), float64(py))
+		x2, y2 := float64(c.F[3]), float64(c.F[4])
+		if c.Name == "a" {
+			x2, y2 = x1+x2, y1+y2
+		}
+		ex, ey := T(x2, y2)
+		rx, ry := float64(c.F[0]), float64(c.F[1])
+		scale := math.Abs(ex) + math.Abs(ey) + math.Abs(float64(px)) + math.Abs(float64(py)) + (math.Abs(rx)+math.Abs(ry))*(sx+sy) + W + H
+		tol := 2e-3 * scale
+		bad := func(clause, msg string) []Failure {
+			return append(fails, Failure{clause, line, fmt.Sprintf("call %d (%s): %s; rasteriser got %v", i, c.String(), msg, delta)})
+		}
+		if !(math.Abs(rx) > 0 && math.Abs(ry) > 0) {
+			if len(delta) != 1 {
+				return bad("C06.zero-radius-line", "a zero radius must give exactly one LineTo")
+			}
+			op, v, ok := parseLogFloats(delta[0])
+			if !ok || op != "L" || math.Abs(v[0]-ex) > tol || math.Abs(v[1]-ey) > tol {
+				return bad("C06.zero-radius-line", fmt.Sprintf("expected LineTo to the mapped endpoint (%g,%g)", ex, ey))
+			}
+			continue
+		}
+		if x1 == x2 && y1 == y2 || math.IsNaN(rx+ry+x2+y2+float64(c.F[2])) {
+			continue // outside the quantifier (coincident end points, non-finite operands)
+		}
+		if len(delta) == 0 || len(delta) > 4 {
+			return bad("C06.at-most-four-cubics", fmt.Sprintf("%d segments", len(delta)))
+		}
+		cx, cy, Rx, Ry, _, dth := svgArcCentre(x1, y1, x2, y2, rx, ry, 2*math.Pi*float64(c.F[2]), c.La, c.Sw)
+		cphi, sphi := math.Cos(2*math.Pi*float64(c.F[2])), math.Sin(2*math.Pi*float64(c.F[2]))
+		// near-degenerate geometry (end points almost diametrically opposite for the given radii) is ill-conditioned
+		illCond := math.Abs(math.Abs(dth)-math.Pi) < 1e-3 || math.Abs(dth) < 1e-3 || math.Abs(math.Abs(dth)-2*math.Pi) < 1e-3
+		onEllipse := func(x, y float64) float64 {
+			vx, vy := unT(x, y)
+			ux, uy := cphi*(vx-cx)+sphi*(vy-cy), -sphi*(vx-cx)+cphi*(vy-cy)
+			return math.Abs(ux*ux/(Rx*Rx) + uy*uy/(Ry*Ry) - 1)
+		}
+		prevAng, total := 0.0, 0.0
+		startVX, startVY := x1, y1
+		ux0, uy0 := cphi*(startVX-cx)+sphi*(startVY-cy), -sphi*(startVX-cx)+cphi*(startVY-cy)
+		prevAng = math.Atan2(uy0/Ry, ux0/Rx)
+		var lastX, lastY float64
+		for _, e := range delta {
+			op, v, ok := parseLogFloats(e)
+			if !ok || op != "C" || len(v) != 6 {
+				return bad("C06.cubics-only", "an arc must be emitted as cubic segments")
+			}
+			lastX, lastY = v[4], v[5]
+			if !illCond {
+				if r := onEllipse(v[4], v[5]); r > 2e-2 {
+					return bad("C06.on-ellipse", fmt.Sprintf("segment end (%g,%g) is off the ellipse (residual %g)", v[4], v[5], r))
+				}
+				vx, vy := unT(v[4], v[5])
+				ux, uy := cphi*(vx-cx)+sphi*(vy-cy), -sphi*(vx-cx)+cphi*(vy-cy)
+				a := math.Atan2(uy/Ry, ux/Rx)
+				d := a - prevAng
+				for d > math.Pi {
+					d -= 2 * math.Pi
+				}
+				for d < -math.Pi {
+					d += 2 * math.Pi
+				}
+				total += d
+				prevAng = a
+			}
+		}
+		if math.Abs(lastX-ex) > tol || math.Abs(lastY-ey) > tol {
+			return bad("C06.ends-at-endpoint", fmt.Sprintf("arc ends at (%g,%g), mapped endpoint is (%g,%g)", lastX, lastY, ex, ey))
+		}
+		if !illCond {
+			if c.Sw && total < 0 || !c.Sw && total > 0 {
+				return bad("C06.sweep-direction", fmt.Sprintf("swept %g rad with sweep=%v", total, c.Sw))
+			}
+			if (math.Abs(total) > math.Pi+1e-2) != c.La && math.Abs(math.Abs(total)-math.Pi) > 5e-2 {
+				return bad("C06.large-arc", fmt.Sprintf("swept %g rad with largeArc=%v", total, c.La))
+			}
+		}
+	}
+	return
+}
+
+// ---------- gradients (C15) ----------
+
+// monitorGradient: C15 — Gradient.At equals the piece-wise linear interpolation of the stops at the
+// offset of the pixel centre (independent float64 evaluation, tolerance 2/65535 away from discontinuities),
+// and is a valid premultiplied colour.
+func monitorGradient(line string, rect image.Rectangle, smp []image.Point, cs []Call) (fails []Failure) {
+	rec := &RecRaster{}
+	var z render.Renderer
+	z.SetRasterizer(rec, rect)
+	var m vm
+	var vb ivg.ViewBox
+	defer func() {
+		if p := recover(); p != nil {
+			fails = append(fails, Failure{"C15.no-panic", line, fmt.Sprint(p)})
+		}
+	}()
+	type expect struct {
+		skip bool
+		want [4]float64
+		off  float64
+	}
+	var pending []expect
+	for i, c := range cs {
+		if !c.IsDest() {
+			continue
+		}
+		if c.Name == "reset" {
+			vb = c.VB
+		}
+		want, isStart := m.step(c, rect.Dy())
+		nDraw := len(rec.Paints)
+		c.Apply(&z)
+		if isStart {
+			pending = nil
+			if !strings.HasPrefix(want, "G") {
+				continue
+			}
+			col := m.creg[(m.csel-c.Adj)&0x3f]
+			nStops, cBase, nBase := int(col.R&0x3f), col.G&0x3f, col.B&0x3f
+			shape, spread := (col.B>>6)&1, col.G>>6
+			var mat [6]float64
+			for k := 0; k < 6; k++ {
+				mat[k] = float64(m.nreg[(nBase-6+uint8(k))&0x3f])
+			}
+			type stop struct {
+				off  float64
+				rgba [4]float64
+			}
+			var stops []stop
+			for k := 0; k < nStops; k++ {
+				sc := m.creg[(cBase+uint8(k))&0x3f]
+				stops = append(stops, stop{float64(m.nreg[(nBase+uint8(k))&0x3f]), [4]float64{float64(sc.R) * 257, float64(sc.G) * 257, float64(sc.B) * 257, float64(sc.A) * 257}})
+			}
+			// the viewBox-to-pixel scale is a float32 quantity (it is the map the Renderer draws geometry with)
+			sx, sy := float64(float32(rect.Dx())/(vb.MaxX-vb.MinX)), float64(float32(rect.Dy())/(vb.MaxY-vb.MinY))
+			for _, p := range smp {
+				var e expect
+				vx, vy := (float64(p.X)+0.5)/sx+float64(vb.MinX), (float64(p.Y)+0.5)/sy+float64(vb.MinY)
+				gx, gy := mat[0]*vx+mat[1]*vy+mat[2], mat[3]*vx+mat[4]*vy+mat[5]
+				off := gx
+				if shape == 1 {
+					off = math.Hypot(gx, gy)
+				}
+				e.off = off
+				fr := off - math.Floor(off)
+				// an offset inside [0,1] that is EXACTLY a stop's offset must give exactly that stop's colour
+				exact := false
+				if sx == 1 && sy == 1 && off >= 0 && off <= 1 {
+					for _, s := range stops {
+						if s.off == off {
+							e.want, exact = s.rgba, true
+						}
+					}
+				}
+				if exact {
+					pending = append(pending, e)
+					continue
+				}
+				if math.IsNaN(off) || math.IsInf(off, 0) || math.Abs(off) > 100 || math.IsInf(sx+sy, 0) || fr < 1e-6 || fr > 1-1e-6 {
+					e.skip = true
+					pending = append(pending, e)
+					continue
+				}
+				var o float64
+				transparent := false
+				switch {
+				case off >= 0 && off <= 1:
+					o = off
+				case spread == 0:
+					transparent = true
+				case spread == 1:
+					o = math.Max(0, math.Min(1, off))
+				case spread == 3:
+					o = fr
+				default:
+					t := math.Mod(math.Abs(off), 2)
+					if t > 1 {
+						t = 2 - t
+					}
+					o = t
+				}
+				for _, s := range stops {
+					if math.Abs(o-s.off) < 1e-6 {
+						e.skip = true
+					}
+				}
+				if !transparent && !e.skip {
+					switch {
+					case o < stops[0].off:
+						e.want = stops[0].rgba
+					case o > stops[len(stops)-1].off:
+						e.want = stops[len(stops)-1].rgba
+					default:
+						for k := 0; k+1 < len(stops); k++ {
+							if stops[k].off <= o && o <= stops[k+1].off {
+								t := (o - stops[k].off) / (stops[k+1].off - stops[k].off)
+								for ch := 0; ch < 4; ch++ {
+									e.want[ch] = (1-t)*stops[k].rgba[ch] + t*stops[k+1].rgba[ch]
+								}
+								break
+							}
+						}
+					}
+				}
+				pending = append(pending, e)
+			}
+			continue
+		}
+		if c.Name == "Z" && len(rec.Paints) == nDraw+1 && pending != nil {
+			src := rec.Paints[nDraw]
+			for k, p := range smp {
+				r, g, b, a := src.At(p.X, p.Y).RGBA()
+				got := [4]float64{float64(r), float64(g), float64(b), float64(a)}
+				if r > a || g > a || b > a {
+					return append(fails, Failure{"C15.premultiplied", line, fmt.Sprintf("path ending at call %d: At(%d,%d) = %v is not a valid premultiplied colour", i, p.X, p.Y, got)})
+				}
+				if pending[k].skip {
+					continue
+				}
+				for ch := 0; ch < 4; ch++ {
+					if math.Abs(got[ch]-pending[k].want[ch]) > 2.5+1e-4*pending[k].want[ch] {
+						return append(fails, Failure{"C15.interpolation", line, fmt.Sprintf("path ending at call %d: At(%d,%d) = %v, interpolation of the stops at offset %g gives %v", i, p.X, p.Y, got, pending[k].off, pending[k].want)})
+					}
+				}
+			}
+			pending = nil
+		}
+	}
+	return
+}
+
+// ---------- generator gradient helpers (C19) ----------
+
+func monitorC19(line string, ops []GenOp, h GenOp) (fails []Failure) {
+	rec := &Recorder{}
+	g := &generate.Generator{}
+	g.SetDestination(rec)
+	var m vm
+	applied := 0
+	sync := func() {
+		for ; applied < len(rec.Calls); applied++ {
+			m.step(rec.Calls[applied], 1)
+		}
+	}
+	defer func() {
+		if p := recover(); p != nil {
+			fails = append(fails, Failure{"C19.no-panic", line, fmt.Sprint(p)})
+		}
+	}()
+	for _, o := range ops {
+		if o.Kind == "call" || o.Kind == "xf" || o.Kind == "path" {
+			ApplyGen(g, o)
+			sync()
+			continue
+		}
+		cs0, ns0 := m.csel, m.nsel
+		nBefore := len(rec.Calls)
+		errText := ApplyGen(g, o)
+		sync()
+		bad := func(clause, msg string) []Failure {
+			return append(fails, Failure{clause, line, fmt.Sprintf("%s: %s", o.String()[:minInt(len(o.String()), 120)], msg)})
+		}
+		n := len(o.Stops)
+		inRange := false
+		for k := 0; k < n && k < 64; k++ {
+			if (10+k)&63 == int(cs0) {
+				inRange = true
+			}
+		}
+		switch {
+		case n > 58:
+			if errText != "ivg:_too_many_gradient_stops" || len(rec.Calls) != nBefore {
+				return bad("C19.too-many-stops", fmt.Sprintf("%d stops: error %q, %d calls made", n, errText, len(rec.Calls)-nBefore))
+			}
+			continue
+		case inRange:
+			if errText != "ivg:_CSEL_used_as_both_gradient_and_stop" || len(rec.Calls) != nBefore {
+				return bad("C19.csel-in-stop-range", fmt.Sprintf("CSEL=%d with %d stops: error %q, %d calls made", cs0, n, errText, len(rec.Calls)-nBefore))
+			}
+			continue
+		}
+		if errText != "ok" {
+			return bad("C19.unexpected-error", errText)
+		}
+		if m.csel != cs0 || m.nsel != ns0 {
+			return bad("C19.selectors-restored", fmt.Sprintf("CSEL/NSEL %d/%d before, %d/%d after", cs0, ns0, m.csel, m.nsel))
+		}
+		gc := m.creg[cs0]
+		if !(gc.A == 0 && gc.B&0x80 != 0) {
+			return bad("C19.gradient-value", fmt.Sprintf("CREG[CSEL] = %v is not a gradient", gc))
+		}
+		nStops, cBase, nBase := int(gc.R&0x3f), gc.G&0x3f, gc.B&0x3f
+		shape, spread := (gc.B>>6)&1, gc.G>>6
+		wantShape := uint8(1)
+		if o.Kind == "lin" {
+			wantShape = 0
+		} else if o.Kind == "grad" {
+			wantShape = o.Shape & 1
+		}
+		if nStops != n || shape != wantShape || spread != o.Spread&3 {
+			return bad("C19.gradient-parameters", fmt.Sprintf("value names NSTOPS=%d shape=%d spread=%d, requested %d/%d/%d", nStops, shape, spread, n, wantShape, o.Spread&3))
+		}
+		for k, st := range o.Stops {
+			r, gg, b, a := st.Color.RGBA()
+			wc := color.RGBA{uint8(r >> 8), uint8(gg >> 8), uint8(b >> 8), uint8(a >> 8)}
+			if m.creg[(cBase+uint8(k))&63] != wc || !(m.nreg[(nBase+uint8(k))&63] == st.Offset || st.Offset != st.Offset) {
+				return bad("C19.stop-registers", fmt.Sprintf("stop %d is not in CREG/NREG[base+%d]", k, k))
+			}
+		}
+		var M [6]float64
+		for k := 0; k < 6; k++ {
+			M[k] = float64(m.nreg[(nBase-6+uint8(k))&63])
+		}
+		ap := func(x, y float64) (float64, float64) { return M[0]*x + M[1]*y + M[2], M[3]*x + M[4]*y + M[5] }
+		f := make([]float64, len(o.F))
+		for k, v := range o.F {
+			f[k] = float64(v)
+		}
+		const tol = 2e-4
+		switch o.Kind {
+		case "lin":
+			a0, _ := ap(f[0], f[1])
+			a1, _ := ap(f[2], f[3])
+			p0, _ := ap(f[0]+(f[3]-f[1]), f[1]-(f[2]-f[0]))
+			if math.Abs(a0) > tol || math.Abs(a1-1) > tol || math.Abs(p0) > tol*(1+math.Hypot(f[2]-f[0], f[3]-f[1])) {
+				return bad("C19.linear-geometry", fmt.Sprintf("offset %g at (x1,y1), %g at (x2,y2), %g along the perpendicular", a0, a1, p0))
+			}
+		case "circ":
+			cx, cy := ap(f[0], f[1])
+			ex, ey := ap(f[0]+f[2], f[1]+f[3])
+			if math.Hypot(cx, cy) > tol || math.Abs(math.Hypot(ex, ey)-1) > tol {
+				return bad("C19.circular-geometry", fmt.Sprintf("centre maps to distance %g, the circle point to %g", math.Hypot(cx, cy), math.Hypot(ex, ey)))
+			}
+		case "ell":
+			cx, cy := ap(f[0], f[1])
+			ex, ey := ap(f[0]+f[2], f[1]+f[3])
+			sx, sy := ap(f[0]+f[4], f[1]+f[5])
+			if math.Hypot(cx, cy) > tol || math.Abs(math.Hypot(ex, ey)-1) > 5*tol || math.Abs(math.Hypot(sx, sy)-1) > 5*tol {
+				return bad("C19.elliptical-geometry", fmt.Sprintf("centre %g, axis ends %g and %g", math.Hypot(cx, cy), math.Hypot(ex, ey), math.Hypot(sx, sy)))
+			}
+		case "grad":
+			for k := 0; k < 6; k++ {
+				if m.nreg[(nBase-6+uint8(k))&63] != o.Affs[0][k] {
+					return bad("C19.matrix-registers", "the given matrix is not in NREG[NBASE-6..NBASE-1]")
+				}
+			}
+		}
+	}
+	return
+}
+
+func minInt(a, b int) int {
+	if a < b {
+		return a
+	}
+	return b
+}
+
+// ---------- SVG path data (C20, generator dialect) ----------
+
+var pathNumRe = regexp.MustCompile(`^[+-]?(?:\d*\.\d+|\d+)`)
+
+// spellPath interprets path data per SVG (generator dialect) and returns the expected Destination
+// calls with operands in float64 after the scale-and-translate transform (sx, sy, tx, ty).
+func spellPath(d string, adj uint8, sx, sy, tx, ty float64) (out []struct {
+	name string
+	f    []float64
+	la   bool
+	sw   bool
+}, ok bool) {
+	type call = struct {
+		name string
+		f    []float64
+		la   bool
+		sw   bool
+	}
+	i := 0
+	skipSep := func() {
+		for i < len(d) && (d[i] == ' ' || d[i] == ',') {
+			i++
+		}
+	}
+	num := func() (float64, bool) {
+		skipSep()
+		m := pathNumRe.FindString(d[i:])
+		if m == "" {
+			return 0, false
+		}
+		i += len(m)
+		v, err := strconv.ParseFloat(m, 64)
+		return v, err == nil
+	}
+	verb := byte(0)
+	first := true
+	for i < len(d) {
+		skipSep()
+		if i >= len(d) {
+			break
+		}
+		c := d[i]
+		if c >= 'A' && c <= 'Z' || c >= 'a' && c <= 'z' {
+			verb = c
+			i++
+			if c == 'z' || c == 'Z' {
+				continue
+			}
+		} else if verb == 'M' {
+			verb = 'L'
+		} else if verb == 'm' {
+			verb = 'l'
+		}
+		n := map[byte]int{'M': 2, 'L': 2, 'T': 2, 'H': 1, 'V': 1, 'Q': 4, 'S': 4, 'C': 6, 'A': 7}[verb&^0x20]
+		if n == 0 {
+			return nil, false
+		}
+		a := make([]float64, n)
+		for k := range a {
+			v, ok := num()
+			if !ok {
+				return nil, false
+			}
+			a[k] = v
+		}
+		rel := verb >= 'a'
+		if first {
+			rel = false // the first move starts the path with absolute coordinates
+		}
+		X := func(x float64) float64 {
+			if rel {
+				return sx * x
+			}
+			return sx*x + tx
+		}
+		Y := func(y float64) float64 {
+			if rel {
+				return sy * y
+			}
+			return sy*y + ty
+		}
+		var cl call
+		switch verb &^ 0x20 {
+		case 'M':
+			if first {
+				cl = call{name: "start", f: []float64{X(a[0]), Y(a[1])}}
+			} else if rel {
+				cl = call{name: "y", f: []float64{X(a[0]), Y(a[1])}}
+			} else {
+				cl = call{name: "Y", f: []float64{X(a[0]), Y(a[1])}}
+			}
+		case 'H':
+			cl = call{name: string(verb), f: []float64{X(a[0])}}
+		case 'V':
+			cl = call{name: string(verb), f: []float64{Y(a[0])}}
+		case 'A':
+			cl = call{name: string(verb), f: []float64{sx * a[0], sy * a[1], a[2] / 360, X(a[5]), Y(a[6])}, la: a[3] != 0, sw: a[4] != 0}
+		default:
+			f := make([]float64, n)
+			for k := 0; k < n; k += 2 {
+				f[k], f[k+1] = X(a[k]), Y(a[k+1])
+			}
+			cl = call{name: string(verb), f: f}
+		}
+		first = false
+		out = append(out, cl)
+	}
+	out = append(out, call{name: "Z"})
+	return out, true
+}
+
+func monitorPathData(line string, ops []GenOp, obs string) (fails []Failure) {
+	sx, sy, tx, ty := 1.0, 1.0, 0.0, 0.0
+	for _, o := range ops {
+		if o.Kind == "xf" {
+			sx, sy, tx, ty = 1, 1, 0, 0
+			for _, a := range o.Affs { // scale-and-translate transforms composed in order
+				sx, tx = sx*float64(a[0]), tx*float64(a[0])+float64(a[2])
+				sy, ty = sy*float64(a[4]), ty*float64(a[4])+float64(a[5])
+			}
+		}
+		if o.Kind != "path" {
+			continue
+		}
+		want, ok := spellPath(o.Path, o.Adj, sx, sy, tx, ty)
+		if !ok {
+			return nil
+		}
+		rec := &Recorder{}
+		g := &generate.Generator{}
+		g.SetDestination(rec)
+		for _, p := range ops {
+			if p.Kind == "xf" {
+				ApplyGen(g, p)
+			}
+		}
+		var perr string
+		func() {
+			defer func() {
+				if p := recover(); p != nil {
+					perr = fmt.Sprint("panic: ", p)
+				}
+			}()
+			if err := g.SetPathData(o.Path, o.Adj); err != nil {
+				perr = err.Error()
+			}
+		}()
+		bad := func(msg string) []Failure {
+			return append(fails, Failure{"C20.path-as-spelled", line, fmt.Sprintf("path %q: %s", o.Path, msg)})
+		}
+		if perr != "" {
+			return bad("well-formed path data rejected: " + perr)
+		}
+		if len(rec.Calls) != len(want) {
+			return bad(fmt.Sprintf("%d calls emitted, the path spells %d", len(rec.Calls), len(want)))
+		}
+		for k, w := range want {
+			gc := rec.Calls[k]
+			if gc.Name != w.name || len(gc.F) != len(w.f) || gc.La != w.la || gc.Sw != w.sw || (w.name == "start" && gc.Adj != o.Adj) {
+				return bad(fmt.Sprintf("call %d is %s, the path spells %s", k, gc.String(), w.name))
+			}
+			for j := range w.f {
+				if math.Abs(float64(gc.F[j])-w.f[j]) > 1e-4*(1+math.Abs(w.f[j])) {
+					return bad(fmt.Sprintf("call %d (%s) operand %d = %g, expected %g", k, w.name, j, gc.F[j], w.f[j]))
+				}
+			}
+		}
+	}
+	return
+}
+
+// ---------- monitors addressable by case line (for the violation search, shrinking and replay) ----------
+
+func parseRenCase(line string) (rect image.Rectangle, smp []image.Point, cs []Call, ok bool) {
+	parts := strings.SplitN(line, "|", 2)
+	if len(parts) != 2 {
+		return
+	}
+	hdr := strings.Fields(parts[0])
+	if len(hdr) != 6 || hdr[0] != "ren" {
+		return
+	}
+	var v [4]int
+	for i := 0; i < 4; i++ {
+		x, err := strconv.Atoi(hdr[i+1])
+		if err != nil {
+			return
+		}
+		v[i] = x
+	}
+	smp, err := parsePoints(hdr[5])
+	if err != nil {
+		return
+	}
+	cs, err = ParseCalls(parts[1])
+	if err != nil {
+		return
+	}
+	return image.Rect(v[0], v[1], v[2], v[3]), smp, cs, true
+}
+
+func init() {
+	Monitors["C04"] = func(line string) []Failure {
+		if rect, _, cs, ok := parseRenCase(line); ok {
+			return monitorVM(line, rect, cs)
+		}
+		return nil
+	}
+	Monitors["C05"] = func(line string) []Failure {
+		if rect, _, cs, ok := parseRenCase(line); ok {
+			return monitorGeometry(line, rect, cs)
+		}
+		return nil
+	}
+	Monitors["C06"] = func(line string) []Failure {
+		if rect, _, cs, ok := parseRenCase(line); ok {
+			return monitorArcs(line, rect, cs)
+		}
+		return nil
+	}
+	Monitors["C15"] = func(line string) []Failure {
+		if rect, smp, cs, ok := parseRenCase(line); ok {
+			return monitorGradient(line, rect, smp, cs)
+		}
+		return nil
+	}
+	Monitors["C13"] = func(line string) []Failure {
+		parts := strings.SplitN(line, "|", 2)
+		if len(parts) != 2 {
+			return nil
+		}
+		b, err := ParseBytes(parts[1])
+		if err != nil {
+			return nil
+		}
+		return monitorC13(line, b)
+	}
+	Monitors["C03"] = func(line string) []Failure { return nil }
+}
